@@ -336,12 +336,17 @@ FeatDeviations(I, s, F, o) ==
                      x \in {y \in FeatTrue(I, s, F, o.t, ft) : o.f[ft][y[1]][1] # y[2]} }
                  : ft \in DOMAIN o.f }
 
+(* column names a component contributes: its class name without "Observer"; a component with several
+   columns (a nested composite) contributes name_0 .. name_{w-1} *)
+ColNames(c, ft) ==
+    LET w == IF c.f[ft] = <<>> THEN 1 ELSE Len(c.f[ft][1])
+    IN IF w > 1 THEN [i \in 1..w |-> c.name \o "_" \o ToString(i - 1)] ELSE <<c.name>>
 (* C11: composite = column-wise concatenation of its components, in order *)
 CompositeOK(subs, o) ==
     \A ft \in DOMAIN o.f :
         LET parts == SelectSeq(o.comps, LAMBDA c : c # 0 /\ ft \in DOMAIN subs[c].f)
         IN /\ \A r \in DOMAIN o.f[ft] : o.f[ft][r] = Concat([k \in DOMAIN parts |-> subs[parts[k]].f[ft][r]])
-           /\ o.cols[ft] = [k \in DOMAIN parts |-> subs[parts[k]].name]
+           /\ o.cols[ft] = Concat([k \in DOMAIN parts |-> ColNames(subs[parts[k]], ft)])
 
 (* C13 *)
 RewardsOK(I, s, o, ndisp) ==
